@@ -63,7 +63,9 @@ BOUNDS = {
              "Delaunay with 6 vertices; function lists with 1-2 positive columns) in 17 ordered lists, masks with 2..9 unmasked pixels (all masks of a "
              "2x2 window once); symbolic: data (reconstruction through the exact linear solve) | all noise values | data and noise | 3 kernel entries; "
              "mapped_reconstructed_data for a fully symbolic reconstruction vector. Every L3 case reads two inversion objects per formalism in "
-             "opposite orders (matrices -> curvature_reg_matrix / reconstruction / log-det terms -> matrices again; and history first).",
+             "opposite orders (matrices -> curvature_reg_matrix / reconstruction / log-det terms -> matrices again; and history first), then "
+             "inverts a second dataset (DatasetInterface sharing noise map, convolver, grids and w-tilde tables, OTHER data - symbolic in the "
+             "data modes) and the first dataset once more. Lists include two different function lists of equal size (2 and 3 columns).",
     "thorough": "same plus: all 511 masks of a 3x3 window (L1, data symbolic), all 63 masks of a 2x3 window at L3, every order of two 3-object lists "
                 "on ring8/block9, T6 mask with a 3x5 kernel, more symbolic kernel-entry subsets (4 per pattern), 7x7 mirrored matrices, 5x5 kernel tables.",
 }
@@ -503,7 +505,8 @@ def _inputs_for(ctx, mode, mask, ky, kx, signed=True, nsym=None, ksym=None, nois
         noise = symbolic_noise(ctx, "s", n)
     else:
         raise ValueError(mode)
-    return {"mask": mask, "data": data, "noise": noise, "kernel": kernel}
+    data2 = V.real_array("e", (n,)) if mode in ("data", "data+noise") else np.array([(-2.0, 0.5, 1.25, -0.75, 3.0, 0.25, -1.5)[(3 * i + 1) % 7] for i in range(n)])
+    return {"mask": mask, "data": data, "noise": noise, "kernel": kernel, "data2": data2}
 
 
 def _mask_for(ctx, pattern, ky, kx, extra):
@@ -1046,6 +1049,32 @@ def body_inversion(inp, ky, kx, specs, solve=False, split=False):
                     mm(B, rec.reshape(m, 1)).reshape(n), split)
                 if sfx == "":
                     put(A, E, tag + ".curvature_matrix_last", hx.attempt(lambda: np.array(inv.curvature_matrix)), Fref, split)
+        # ---- dataset history: a second dataset that shares the noise map, convolver, grids and w-tilde tables of the first one but carries
+        # OTHER data (the documented use of DatasetInterface), inverted after the first one; then the first dataset once more
+        if "data2" in inp:
+            d2 = _obj(inp["data2"]).reshape(-1)[:n]
+            D2ref, _ = normal_equations(B, d2, s, noreg, EPS_DIAG)
+            data2 = aa.Array2D(values=native_from_slim(mask2d, d2), mask=mask)
+            for tag, wt in (("map", False), ("wt", True)):
+                st = aa.SettingsInversion(use_w_tilde=wt, use_positive_only_solver=False, no_regularization_add_to_curvature_diag_value=EPS_DIAG)
+
+                def ds2():
+                    return aa.DatasetInterface(data=data2, noise_map=dataset.noise_map, convolver=dataset.convolver,
+                                               w_tilde=dataset.w_tilde if (wt and not all_funcs) else None, grids=dataset.grids)
+
+                inv2 = hx.attempt(lambda: aa.Inversion(dataset=ds2(), linear_obj_list=objs, settings=st))
+                if isinstance(inv2, hx.Raised):
+                    A[tag + ".inversion_ds2"], E[tag + ".inversion_ds2"] = inv2, "constructed"
+                    continue
+                put(A, E, tag + ".data_vector_ds2", hx.attempt(lambda: np.array(inv2.data_vector)), D2ref, split)
+                put(A, E, tag + ".curvature_matrix_ds2", hx.attempt(lambda: np.array(inv2.curvature_matrix)), Fref, split)
+                if solve:
+                    H = np.asarray(shim.normalise(np.asarray(inv2.regularization_matrix)), dtype=float)
+                    Fc = shim.normalise(Fref)
+                    A[tag + ".reconstruction_ds2"] = hx.attempt(lambda: np.array(inv2.reconstruction))
+                    E[tag + ".reconstruction_ds2"] = exact_solve(np.asarray(Fc, dtype=float) + H, D2ref) if not shim.has_sym(Fc) else "concrete curvature expected"
+                inv3 = hx.attempt(lambda: aa.Inversion(dataset=dataset, linear_obj_list=objs, settings=st))
+                put(A, E, tag + ".data_vector_ds1_again", inv3 if isinstance(inv3, hx.Raised) else hx.attempt(lambda: np.array(inv3.data_vector)), Dref, split)
     finally:
         conf.instance["general"]["inversion"]["check_reconstruction"] = old_check
     return A, E
@@ -1066,7 +1095,7 @@ def case_inversion(ctx, pattern, ky, kx, specs, mode, extra=0, signed=True, solv
 
     def known_for(key):
         b = base_key(key)
-        for sf in ("_after", "_hfirst", "_last"):
+        for sf in ("_after", "_hfirst", "_last", "_ds2", "_ds1_again"):
             if b.endswith(sf):
                 b = b[:-len(sf)]
         if b in ("wt.curvature_matrix", "wt.reconstruction", "wt.curvature_reg_matrix"):
@@ -1090,7 +1119,7 @@ def case_inversion(ctx, pattern, ky, kx, specs, mode, extra=0, signed=True, solv
         # barycentric weights are not dyadic: float64 and exact arithmetic differ by rounding, so these cases carry a 1e-9 tolerance
         # and bounded data / reconstruction values (a relative tolerance is meaningless for unbounded values)
         tol = 1e-9
-        for arr in (inputs["data"], inputs["recon"]):
+        for arr in (inputs["data"], inputs["data2"], inputs["recon"]):
             for e in np.asarray(arr, dtype=object).reshape(-1):
                 if V.is_sym(e):
                     ctx.assume(z3.And(e.t >= -1000, e.t <= 1000))
@@ -1153,7 +1182,7 @@ def cases(tier):
     # ---- level 3: aa.Inversion, both formalisms
     lists = [["R33s1"], ["R33s2d"], ["R33s1", "R34s2d"], ["R34s2d", "R33s1"], ["R33s1", "F2"], ["F2", "R33s1"], ["F1", "F2"],
              ["R33s1", "F1", "R34s2d"], ["R33s1", "R34s2d", "R43s2e"], ["R43s2e", "R33s1", "R34s2d"], ["R33s1n"], ["F1", "R33s1n"], ["R33s2d", "R33s1n"],
-             ["F2", "R33s2d", "F1"], ["R33s4d", "F1"]]
+             ["F2", "R33s2d", "F1"], ["R33s4d", "F1"], ["F2", "R33s1", "F2b"], ["R33s2d", "F3b", "F3"]]
     for specs in lists:        # data symbolic, non-negative PSF: D, reconstruction, mapped data decided for every data vector in both formalisms
         out.append((I, {"pattern": "cross5", "ky": 3, "kx": 3, "specs": specs, "mode": "data", "signed": False, "solve": True}))
     for specs in (["R33s1", "R34s2d"], ["F2", "R33s2d"]):
@@ -1174,6 +1203,7 @@ def cases(tier):
     out.append((I, {"pattern": "pair", "ky": 3, "kx": 3, "specs": ["F1", "R33s2d"], "mode": "kernel"}))
     out.append((I, {"pattern": "block4", "ky": 3, "kx": 3, "specs": ["R33s1", "F1"], "mode": "kernel", "ksym": [0, 4, 7]}))
     out.append((I, {"pattern": "L3", "ky": 3, "kx": 3, "specs": ["R33s2d", "R33s1n"], "mode": "kernel", "ksym": [1, 3, 8]}))
+    out.append((I, {"pattern": "zig4", "ky": 3, "kx": 3, "specs": ["F2b", "F2", "R33s1"], "mode": "noise"}))
     out.append((I, {"pattern": "L3", "ky": 5, "kx": 5, "specs": ["R33s1", "F1"], "mode": "kernel", "ksym": [0, 12, 18]}))
     out.append((I, {"pattern": "L3", "ky": 1, "kx": 3, "specs": ["R33s1", "F1"], "mode": "kernel"}))
     out.append((I, {"pattern": "L3", "ky": 3, "kx": 1, "specs": ["F1", "R33s1"], "mode": "kernel"}))
